@@ -220,4 +220,61 @@ theorem C03_every_step (w0 : World) (cs0 : List StateComp) (t0 : Tape) (ops : Li
     exact C03_reachable w0 cs0 t0 (ops.take k) hcfg hn h0
       (fun cs t hm => hR cs t (List.mem_of_mem_take hm)) hk
 
+/-! ## Non-vacuity: the hypotheses are met by a dirty world, and a history with a move, a kill, a
+blocked move and a second episode runs to its end -/
+
+/-- a dirty 2×3 world: a dead agent still listed in a cell, a ghost entry, spent ammunition -/
+def exDirtyWorld : World :=
+  { rows := 2, cols := 3, overlap := [(1, [1])],
+    cells := [[0, 2], [], [1], [], [], [2]],
+    cfg := [{ enc := 1, moving := true, moveRange := 1, hasOrient := true, attacking := true, attackRange := 2,
+              strength := 1/2, hasAmmo := true, initAmmo := 3 },
+            { enc := 2, initPos := some (0, 1), initHealth := some (1/2) },
+            { enc := 1, hasOrient := true, initOrient := some 2 }],
+    st := [{ pos := (1, 1), health := 0, active := false, ammo := 0, orient := 3 },
+           { pos := (0, 2), health := 1/4 }, { pos := (1, 2), orient := 7 }] }
+
+def exResetComps : List StateComp := [.orient, .position .position {}, .ammo, .health]
+
+def exHist : List (GOp × Tape) :=
+  [(.move (.move 0 (1, -1)), []), (.attack ⟨.binary, [(1, [2])], false⟩ 0 (.count 1), [0, 0, 0]),
+   (.attack ⟨.binary, [(1, [2])], false⟩ 0 (.count 1), [0, 0, 0]),
+   (.move (.cross 2 1), []), (.reset exResetComps, [5, 1, 2, 3, 4, 5, 6, 7])]
+
+example : exDirtyWorld.WInv = false := by decide +kernel
+
+theorem exDirtyCfgOK : CfgOK exDirtyWorld := by
+  constructor
+  · intro a h hh
+    rcases a with _ | _ | _ | a <;> simp [exDirtyWorld, cfgOf] at hh
+    subst hh; norm_num
+  · intro a o ho
+    rcases a with _ | _ | _ | a <;> simp [exDirtyWorld, cfgOf] at ho
+    omega
+
+theorem exDirtyNoAmmo : NoAmmoC exDirtyWorld := by
+  intro a _ _
+  rcases a with _ | _ | _ | a <;> simp [exDirtyWorld, stOf]
+
+theorem exDirtyFull : FullReset exDirtyWorld exResetComps := by
+  refine ⟨⟨.position, {}, by simp [exResetComps]⟩, by simp [exResetComps], by simp [exResetComps], by simp [exResetComps], ?_⟩
+  intro kind o hm
+  simp only [exResetComps, List.mem_cons, reduceCtorEq, StateComp.position.injEq, List.not_mem_nil, or_false, false_or] at hm
+  obtain ⟨rfl, rfl⟩ := hm
+  decide +kernel
+
+theorem exHistResets : ResetsFull exDirtyWorld exHist := by
+  intro cs t hm
+  simp only [exHist, List.mem_cons, Prod.mk.injEq, reduceCtorEq, false_and, GOp.reset.injEq, List.not_mem_nil, or_false, false_or] at hm
+  rw [hm.1]; exact exDirtyFull
+
+/-- the history runs to its end (a move, a kill, a blocked move, a second episode) -/
+example : (runGOps exDirtyWorld ((.reset exResetComps, [3, 1, 4, 1, 5, 9, 2, 6]) :: exHist)).toOption.isSome = true := by
+  decide +kernel
+
+/-- … and the invariant holds at its end, as `C03_reachable` says (here by the theorem, not by evaluation) -/
+example {w : World}
+    (h : runGOps exDirtyWorld ((.reset exResetComps, [3, 1, 4, 1, 5, 9, 2, 6]) :: exHist) = .ok w) : w.WInv = true :=
+  C03_reachable exDirtyWorld exResetComps _ exHist exDirtyCfgOK exDirtyNoAmmo exDirtyFull exHistResets h
+
 end Abmarl
